@@ -14,7 +14,7 @@ Definition resolves (E : env) (u : value) : Prop :=
 Definition builtins_free (E : env) : Prop := forall n, is_builtin n = true -> env_lookup E n = None.
 
 Definition ok1 (W : world) (E : env) (u : value) : Prop :=
-  wf_local W u = true /\ g_enum_local u = true /\ g_raw_local u = true /\ g_std_local u = true /\ resolves E u.
+  wf_local W u = true /\ g_raw_local u = true /\ g_std_local u = true /\ resolves E u.
 
 (* ---------------------------------------------------------------- calls *)
 Lemma apply_call_lib W E n m k args kws :
@@ -39,11 +39,14 @@ Proof. induction l as [|z r IH]; cbn; [reflexivity|]. cbn in IH. rewrite IH. ref
 Lemma ints_of_map l : ints_of (map VInt l) = Some l.
 Proof. unfold ints_of. induction l as [|z r IH]; cbn; [reflexivity|]. rewrite IH. reflexivity. Qed.
 
+Lemma unsnoc_app {A} (l : list A) (x : A) : unsnoc (l ++ [x]) = Some (l, x).
+Proof. induction l as [|y l IH]; cbn; [reflexivity|]. cbn in IH. rewrite IH. reflexivity. Qed.
+
 (* ---------------------------------------------------------------- scalars *)
 Lemma eval_scalar W E v :
   builtins_free E -> is_container v = false -> ok1 W E v -> eval W E (repr W v) = Some (norm W v).
 Proof.
-  intros HB Hc (Hwf & Hen & Hraw & Hstd & Hres).
+  intros HB Hc (Hwf & Hraw & Hstd & Hres).
   destruct v; try discriminate Hc; try discriminate Hstd; try reflexivity.
   - (* VFloat *)
     cbn [repr norm]. destruct (fl_isfinite bits) eqn:Ef; [reflexivity|].
@@ -92,11 +95,12 @@ Proof.
     rewrite eval_ECall. cbn [eval_list eval eval_kws].
     rewrite (apply_call_lib W E _ _ LPeriod _ _ Hres) by reflexivity. reflexivity.
   - (* VEnum *)
-    destruct c as [md q]. cbn [g_enum_local snd] in Hen.
-    destruct q as [|x [|y q]]; try discriminate Hen.
+    destruct c as [md q]. cbn [wf_local snd fst] in Hwf.
+    apply andb_true_iff in Hwf as [Hwf _]. apply andb_true_iff in Hwf as [Hwf Hq].
+    apply andb_true_iff in Hwf as [Hwf _].
+    destruct q as [|x q]; [discriminate Hq|].
     unfold resolves in Hres. cbn [type_of hd snd fst] in Hres.
-    cbn [wf_local] in Hwf. apply andb_true_iff in Hwf as [Hwf _]. apply andb_true_iff in Hwf as [Hwf _].
-    cbn [repr norm snd last eval unsnoc resolve]. rewrite Hres, Hwf. reflexivity.
+    cbn [repr norm snd eval]. rewrite unsnoc_app. cbn [resolve]. rewrite Hres, Hwf. reflexivity.
 Qed.
 
 (* ---------------------------------------------------------------- lists *)
@@ -345,7 +349,7 @@ Proof.
       * apply IHk. intros u Hu. apply Hok. rewrite subs_VDict. right. eapply subs_pairs_in; eauto.
       * apply IHx. intros u Hu. apply Hok. rewrite subs_VDict. right. eapply subs_pairs_in; eauto.
   - (* dataclass instance *)
-    destruct (Hok (VObj c fs) (subs_self _ _)) as (Hwf & _ & _ & _ & Hres).
+    destruct (Hok (VObj c fs) (subs_self _ _)) as (Hwf & _ & _ & Hres).
     cbn [wf_local] in Hwf. rewrite repr_VObj, norm_VObj.
     destruct (find_data W c) as [fds|] eqn:Ef; [|discriminate Hwf].
     apply andb_true_iff in Hwf as [Hwf Hns]. apply andb_true_iff in Hwf as [Hwf Hq].
